@@ -92,3 +92,11 @@ package schemas
 //@   ensures [C13,C20] id-current-wins: result == nil && decoded(0, "ID") != "" ==> s.ID == decoded(0, "ID")
 //@   ensures [C13,C20] id-fallback: result == nil && decoded(0, "ID") == "" ==> s.ID == decoded(0, "LegacyID")
 //@   ensures [C13] definitions-fallback: result == nil ==> s.Definitions == (decoded(0, "Definitions") != nil ? decoded(0, "Definitions") : decoded(1, "Definitions"))
+
+// ---- a relative file reference is relative to the REFERRING document (C10) --------
+// The file system is external; what is decided is the data flow: the candidate
+// path is the referring document's directory joined with the reference.
+//@ func QualifiedFileName
+//@   props C10
+//@   arg-from Dir 0 param:parentFileName
+//@   arg-from Join 0 call:Dir
